@@ -11,7 +11,7 @@ CONSTANTS
   Fix404 = TRUE
   FixCT = TRUE
 INVARIANT Inv
-PROPERTY TCommitConsumes TCacheOnlyVerified TTasksOnlyGrow TCleanupOnlyCandidates TRemovalOnlyByDelete
+PROPERTY TCommitConsumes TCacheOnlyVerified TTasksOnlyGrow TCleanupOnlyCandidates TRemovalOnlyByDelete TReplicateTruthful
 CONSTRAINT HW
 POSTCONDITION TraceAccepted
 CHECK_DEADLOCK FALSE
